@@ -568,3 +568,178 @@ func ruleTB4() Rule {
 			}
 		}}
 }
+
+// ---------------------------------------------------------------------------
+// BRK1: bracket mode ends only at the closing bracket.
+//
+// compile translates a bracket expression member by member inside a labelled
+// loop.  The regular expression it writes is inside a character class for as
+// long as the pattern is; leaving the loop anywhere else than at `]` (or at an
+// unterminated expression, which ends the whole pattern) makes the rest of the
+// bracket expression be translated with top-level rules: `[[a*]` becomes
+// `[[a.*]`, which matches `.`.
+
+func ruleBRK1() Rule {
+	return Rule{ID: "BRK1", Kind: "must", Floor: 2,
+		Doc: "in pattern.compile every exit from the bracket-expression loop is either under the `]` case, or on a path that ends the pattern (an unterminated expression: the width was set to 0 or the enclosing pattern loop is left); an ordinary `[` inside a bracket expression does not end it",
+		Run: func(c *Ctx, rr *core.RuleResult) {
+			f := c.mustFn(rr, "pattern.compile")
+			if f == nil {
+				return
+			}
+			info := f.Info()
+			// the labelled loop nested in the '[' clause of the top-level rune switch
+			var loop *ast.LabeledStmt
+			f.OwnNodes(func(n ast.Node) bool {
+				ls, ok := n.(*ast.LabeledStmt)
+				if !ok || loop != nil {
+					return true
+				}
+				if _, isFor := ls.Stmt.(*ast.ForStmt); !isFor {
+					return true
+				}
+				if cc := enclosingCase(c.P, ls); cc != nil {
+					for _, e := range cc.List {
+						if k, ok := constInt(info, e); ok && k == '[' {
+							loop = ls
+						}
+					}
+				}
+				return true
+			})
+			if loop == nil {
+				rr.Unk(f, f.Name+"|bracket loop", f.Pos(), "no labelled loop inside the '[' case found")
+				return
+			}
+			label := info.Defs[loop.Label]
+			n := 0
+			ast.Inspect(loop.Stmt, func(x ast.Node) bool {
+				br, ok := x.(*ast.BranchStmt)
+				if !ok || br.Tok != token.BREAK || br.Label == nil || info.Uses[br.Label] != label {
+					return true
+				}
+				n++
+				key := fmt.Sprintf("%s|exit from bracket mode #%d", f.Name, n)
+				// under case ']' of a switch on the current rune?
+				closes := false
+				for cc := enclosingCase(c.P, br); cc != nil; cc = enclosingCase(c.P, c.P.Parent(c.P.Parent(cc))) {
+					for _, e := range cc.List {
+						if k, ok := constInt(info, e); ok && k == ']' {
+							closes = true
+						}
+					}
+				}
+				// unterminated: the statement before the break sets the width to zero
+				unterminated := false
+				if blk, ok := c.P.Parent(br).(*ast.BlockStmt); ok {
+					if i := stmtIndex(c.P, blk.List, br); i > 0 {
+						if as, ok := blk.List[i-1].(*ast.AssignStmt); ok && len(as.Rhs) == 1 {
+							if k, ok := constInt(info, as.Rhs[0]); ok && k == 0 {
+								unterminated = true
+							}
+						}
+					}
+				}
+				switch {
+				case closes:
+					rr.OK(f, key, br.Pos(), "closing-bracket", "leaves bracket mode at `]`")
+				case unterminated:
+					rr.OK(f, key, br.Pos(), "unterminated", "the expression is unterminated: nothing of the pattern is left")
+				default:
+					rr.Bad(f, key, br.Pos(), "bracket mode is left before the closing `]`: the rest of the bracket expression is translated as top-level pattern text while the regular expression is still inside the class (`[[a*]` matches `.`, `[[\\d]` matches digits)")
+				}
+				return true
+			})
+			if n == 0 {
+				rr.Unk(f, f.Name+"|bracket loop", loop.Pos(), "the bracket loop has no labelled exit")
+			}
+		}}
+}
+
+// ---------------------------------------------------------------------------
+// ESC1: the separator scan steps over an escaped character.
+
+func ruleESC1() Rule {
+	return Rule{ID: "ESC1", Kind: "must", Floor: 2,
+		Doc: "in the Unix indexSep, the case that recognises a backslash covers every backslash (no further condition lets a final backslash fall through to the separator case), and after a backslash that does not escape a separator the scan resumes behind the escaped character (two bytes on): `a\\\\/b` is a literal backslash followed by a separator",
+		Run: func(c *Ctx, rr *core.RuleResult) {
+			f := c.mustFn(rr, "pattern.indexSep")
+			if f == nil {
+				return
+			}
+			info := f.Info()
+			found := false
+			f.OwnNodes(func(n ast.Node) bool {
+				cc, ok := n.(*ast.CaseClause)
+				if !ok || len(cc.List) != 1 {
+					return true
+				}
+				// find the conjunct pat[i] == '\\'
+				var atoms []ast.Expr
+				var split func(e ast.Expr)
+				split = func(e ast.Expr) {
+					e = ast.Unparen(e)
+					if be, ok := e.(*ast.BinaryExpr); ok && be.Op == token.LAND {
+						split(be.X)
+						split(be.Y)
+						return
+					}
+					atoms = append(atoms, e)
+				}
+				split(cc.List[0])
+				isBS := func(e ast.Expr) (ast.Expr, bool) {
+					be, ok := e.(*ast.BinaryExpr)
+					if !ok || be.Op != token.EQL {
+						return nil, false
+					}
+					if k, ok := constInt(info, be.Y); ok && k == '\\' {
+						if ix, ok := ast.Unparen(be.X).(*ast.IndexExpr); ok {
+							return ix.Index, true
+						}
+					}
+					return nil, false
+				}
+				var idx ast.Expr
+				for _, a := range atoms {
+					if i, ok := isBS(a); ok {
+						idx = i
+					}
+				}
+				if idx == nil {
+					return true
+				}
+				found = true
+				key := f.Name + "|backslash case covers every backslash"
+				if len(atoms) == 1 {
+					rr.OK(f, key, cc.Pos(), "complete", "no further condition on the backslash case")
+				} else {
+					rr.Bad(f, key, cc.Pos(), "the backslash case has a further condition (`"+exprStr(cc.List[0])+"`): a backslash that fails it - the last character of the pattern - falls through to the separator case and is returned as a separator (Glob(`\\`) expands to the root directory)")
+				}
+				// re-slices in this clause
+				ast.Inspect(cc, func(x ast.Node) bool {
+					as, ok := x.(*ast.AssignStmt)
+					if !ok || len(as.Lhs) != 1 || len(as.Rhs) != 1 {
+						return true
+					}
+					se, ok := ast.Unparen(as.Rhs[0]).(*ast.SliceExpr)
+					if !ok || se.Low == nil || se.High != nil || exprStr(se.X) != exprStr(as.Lhs[0]) {
+						return true
+					}
+					be, ok := ast.Unparen(se.Low).(*ast.BinaryExpr)
+					key := f.Name + "|scan resumes behind the escaped character"
+					if ok && be.Op == token.ADD && exprStr(be.X) == exprStr(idx) {
+						if k, isConst := constInt(info, be.Y); isConst && k == 2 {
+							rr.OK(f, key, as.Pos(), "skips-escaped", "resumes two bytes after the backslash")
+							return true
+						}
+					}
+					rr.Bad(f, key, as.Pos(), "after a backslash the scan resumes at `"+exprStr(se.Low)+"`, i.e. at the escaped character itself: the second backslash of `\\\\` is read as a new escape, so `a\\\\/b` is split as if the separator were escaped")
+					return true
+				})
+				return true
+			})
+			if !found {
+				rr.Unk(f, f.Name+"|backslash case", f.Pos(), "no case testing for a backslash found in indexSep")
+			}
+		}}
+}
